@@ -35,6 +35,7 @@ type Engine struct {
 	keyInfos  map[string]keyInfo
 	allNamed  []types.Type
 	closures  map[string]*closureInfo
+	ifaceLocs map[string]*Loc
 	ranges    map[*ssa.Range]*rangeInfo
 	safeOrd   map[string]int
 	tags      map[string]int
@@ -70,10 +71,10 @@ func (eng *Engine) readExtraOverlay(path string) error {
 func newEngine(repo string) *Engine {
 	return &Engine{repo: repo, sorts: newSorts(), contracts: map[*ssa.Function]*Contract{}, byKey: map[string]*Contract{},
 		elabSrc: map[string]string{}, loopCache: map[*ssa.Function]*LoopInfo{}, modCache: map[*ssa.Function]*ModSet{},
-		implCache: map[string][]*ssa.Function{}, keyInfos: map[string]keyInfo{}, closures: map[string]*closureInfo{},
+		implCache: map[string][]*ssa.Function{}, keyInfos: map[string]keyInfo{}, closures: map[string]*closureInfo{}, ifaceLocs: map[string]*Loc{},
 		ranges: map[*ssa.Range]*rangeInfo{}, safeOrd: map[string]int{}, tags: map[string]int{}, funcRefs: map[*ssa.Function]int{},
 		pkgs: map[string]*ssa.Package{}, floatConsts: map[uint64]bool{},
-		maxInline: 5, maxInlineInstrs: 150, maxDispatch: 12}
+		maxInline: 8, maxInlineInstrs: 150, maxDispatch: 12}
 }
 
 // load reads the contract files, elaborates them, and loads the packages (with
@@ -193,7 +194,7 @@ func (eng *Engine) load(mirror string, patterns []string) error {
 		}
 	}
 	eng.initModels()
-	return nil
+	return eng.applySweeps()
 }
 
 func (eng *Engine) lookupFunc(sp *ssa.Package, key string) *ssa.Function {
